@@ -55,7 +55,7 @@ def gen_pack_history(rng, align):
                    for o in rng.sample(oids, rng.choice([1, 1, 2]))]
             meta = ['f', rng.choice([0, 0, 3, 10]), rng.randrange(256)]
         hist.append(dict(kind='commit', tid=tid, status=' ', user=['f', 0, 0], desc=meta, ext=['f', 0, 0],
-                         ops=ops, save_index=rng.random() < 0.5))
+                         ops=ops, save_index=rng.random() < 0.7))
     return hist
 
 
@@ -574,11 +574,11 @@ def main(argv=None):
             runs.append((fn, j['history'], j.get('pack')))
         runs.append(('recipe-stale-index', recipe_history(), False))
         ngen = 6 if not ck.thorough else 120
-        npack = 4 if not ck.thorough else 80
+        npack = 10 if not ck.thorough else 150
         for i in range(ngen):
             runs.append(('gen%d' % i, L.gen_history(ck.rng, ck.rng.choice(['small', 'small', 'small', 'meta'])), None))
         for i in range(npack):
-            runs.append(('pack%d' % i, gen_pack_history(ck.rng, align=(i % 2 == 0)), False))
+            runs.append(('pack%d' % i, gen_pack_history(ck.rng, align=(i % 3 != 0)), False))
         nro = 50 if not ck.thorough else 2000
     all_lines, expectations = [], []
     for name, hist, pack in runs:
